@@ -23,6 +23,7 @@
 (*   Discard  drops the newest block: it was opened with RequireParagraph    *)
 (*            and its paragraph has been transformed away (named deviation) *)
 (*   EndOfInput lists exactly the open blocks; at ParseReturn none is open  *)
+(*   InlineTry (inline phase, successful parses only): the reader advanced  *)
 (***************************************************************************)
 EXTENDS Integers, Sequences, FiniteSets, TLC, Json, IOUtils
 Parses == ndJsonDeserialize("blocks.ndjson")
@@ -91,6 +92,11 @@ Step ==
                   /\ open' = IF k > 0 THEN Remove(k) ELSE open
                   /\ (IF k # Len(open) \/ k = 0 THEN Flag("discard-of-a-block-that-is-not-the-newest") ELSE UNCHANGED bad)
                   /\ UNCHANGED <<closed, lastc, reopen>>
+               [] e.ev = "InlineTry" ->
+                  \* S5 progress: an inline parser that returns a node has moved the block reader
+                  \* forward (otherwise the retry loop of parseBlock would not terminate)
+                  /\ (IF ~e.same THEN Flag("inline-parser-returned-a-node-without-advancing") ELSE UNCHANGED bad)
+                  /\ UNCHANGED <<open, closed, lastc, reopen>>
                [] e.ev = "EndOfInput" ->
                   /\ (IF e.open # open THEN Flag("end-of-input-list-differs") ELSE UNCHANGED bad)
                   /\ UNCHANGED <<open, closed, lastc, reopen>>
